@@ -143,6 +143,11 @@ impl PciTransport {
                     .read_word(device_function, capability.offset + CAP_LENGTH_OFFSET),
             };
 
+            if struct_info.bar > 5 {
+                // Other values are reserved, and capabilities using them must be ignored.
+                continue;
+            }
+
             match cfg_type {
                 VIRTIO_PCI_CAP_COMMON_CFG if common_cfg.is_none() => {
                     common_cfg = Some(struct_info);
@@ -427,8 +432,13 @@ fn get_bar_region<H: Hal, T, C: ConfigurationAccess>(
     device_function: DeviceFunction,
     struct_info: &VirtioCapabilityInfo,
 ) -> Result<NonNull<T>, VirtioPciError> {
+    // Look the BAR up in the table of all BARs rather than probing the index directly, as the
+    // index might be the upper half of a 64-bit BAR.
     let bar_info = root
-        .bar_info(device_function, struct_info.bar)?
+        .bars(device_function)?
+        .get(usize::from(struct_info.bar))
+        .cloned()
+        .flatten()
         .ok_or(VirtioPciError::BarNotAllocated(struct_info.bar))?;
     let (bar_address, bar_size) = bar_info
         .memory_address_size()
